@@ -186,6 +186,30 @@ def generate(seed: int, tier: str) -> Dict[str, Any]:
         if ms_only:
             ops[-1]["with_now"] = False
         turn += 1
+    if r.chance(0.12):
+        # A/B/A over ONE configuration knob around the same question at the same logical time: whatever the knob feeds into a stage
+        # result has to be part of every cache key on the way
+        qa = {"enabled": True, "lexical": {"enabled": True}, "fusion": {"enabled": True, "alpha_semantic": 0.0}, "normalizer": {"enabled": True}}
+        knob, va, vb = r.choice([
+            (["t2", "quality"], qa, dict(qa, normalizer={"enabled": False})),
+            (["t2", "quality"], qa, dict(qa, normalizer={"enabled": True, "stemmer": "porter-lite", "min_token_len": 4})),
+            (["t2", "quality"], qa, dict(qa, aliasing={"enabled": True, "max_expansions_per_token": 2})),
+            (["t2", "quality"], qa, dict(qa, lexical={"enabled": True, "bm25_k1": 0.1, "bm25_b": 0.0})),
+            (["t2", "quality"], qa, dict(qa, mmr={"enabled": True, "lambda": 0.1, "k": 2})),
+            (["t2", "hybrid"], {"enabled": False}, {"enabled": True, "edge_threshold": 0.0, "lambda_graph": 0.9}),
+            (["t2", "ranking"], {"alpha_sim": 1.0, "beta_recency": 0.0, "gamma_importance": 0.0}, {"alpha_sim": 0.0, "beta_recency": 0.0, "gamma_importance": 1.0}),
+            (["t1", "edge_type_mult"], {"supports": 1.0, "associates": 0.6, "contradicts": 0.8}, {"supports": 0.1, "associates": 0.1, "contradicts": 0.1}),
+        ])
+        agent, text = ro.choice(sorted(world["agents"])), ro.choice(texts if texts else ["apple river"])
+        raw.setdefault("t2", {})["sim_threshold"] = -1.0
+        E._set_path(raw, list(knob), copy.deepcopy(va))
+        if r.chance(0.5):
+            raw.setdefault("t4", {})["enabled"] = False
+        ops = []
+        for i, val in enumerate([None, vb, va, vb]):
+            if val is not None:
+                ops.append({"op": "set_cfg", "path": list(knob), "value": copy.deepcopy(val), "kind": "cfg:" + ".".join(knob)})
+            ops.append({"op": "turn", "agent": agent, "text": text, "turn_id": i, "now_ms": E.T0_MS})
     return {"world": world, "world_b": world_b, "cfg": raw, "ops": ops}
 
 
